@@ -270,3 +270,13 @@ Definition swap_rows01 (flip : list bool) (t : mat nat) : mat nat :=
   | _ => t
   end.
 
+
+(* Mesh.__matmul__ with a list of meshes: p = hstack(all p); one np.unique; mesh j uses ixb[t_j + offset_j] *)
+Definition matmul_offset (lens : list nat) (j : nat) : nat := list_sum (firstn j lens).
+Definition matmul_p (ps : list (list key)) : list key := dedupe_p (concat ps).
+Definition matmul_t (ps : list (list key)) (j : nat) (t : mat nat) : mat nat :=
+  dedupe_t (concat ps) (map (map (fun v => v + matmul_offset (map (@length key) ps) j)) t).
+
+
+(* to_meshtri(style='x'): p = hstack((doflocs, centres)); the centre of cell k gets number base + k *)
+Definition quad_x_points {P} (p centres : list P) : list P := p ++ centres.
